@@ -119,7 +119,16 @@ def confirm_on_real_locks(ctx, group, progs):
 
 def run(ctx):
     q = ctx.quick
-    cpath = ctx.write_cases("locks", [{"case": 1}])
+    # variants: the requests of Services.tla that are likely to be carried out plus a seeded sample of the whole universe
+    # (other parameter classes reach error paths and other branches of the same services)
+    rv = run_tlc(ctx.sub("variants"), "GenServicesLive", {}, spec="Spec", invariants=["Emit"], workers=2, timeout=600)
+    if rv.error:
+        raise ToolError("TLC (variants): %s" % rv.error[:1000])
+    live = [c["steps"][0] for c in parse_case_lines(rv.printed)]
+    ru = run_tlc(ctx.sub("universe"), "GenServices", {}, spec="Spec", invariants=["Emit"], workers=4, timeout=900,
+                 printed_cap=400 if q else 4000, seed=ctx.seed)
+    variants = live + [c["steps"][0] for c in parse_case_lines(ru.printed)]
+    cpath = ctx.write_cases("locks", [{"case": 1, "variants": variants}])
     obs = ctx.run("locks", cpath)
     progs, fails = programs(obs)
     for f in fails:
@@ -147,7 +156,7 @@ def run(ctx):
     seen = set()
     culprits = set()                      # tasks that take a pair of lock classes against the documented order
     for x, y, p in inv:
-        task = p.split("@")[0]
+        task = p.split("@")[0].split("~")[0]
         # an inverted pair is reported at the side that departs from the documented order (unranked classes: alphabetical)
         if (RANK.get(x, 99), x) <= (RANK.get(y, 99), y):
             continue                      # (a recursive read of one lock is not an order inversion; TLC decides whether it can deadlock)
@@ -166,7 +175,7 @@ def run(ctx):
     # the same task kind on the two connections
     for a in reps:
         t, c = a.split("@")
-        other = "%s@%d" % (t, 3 - int(c))
+        other = "%s@%d" % (t, 3 - int(c))       # (variants run on connection 1 only)
         if other in progs:
             pairs.append(sorted([a, other]))
     if q and len(pairs) > 900:
@@ -189,7 +198,7 @@ def run(ctx):
         seen_sig = set()
         for g in sorted(dead):
             # a deadlock is attributed to the programs of the group that depart from the documented order
-            names_g = sorted({x.split("@")[0] for x in g})
+            names_g = sorted({x.split("@")[0].split("~")[0] for x in g})
             bad = [t for t in names_g if t in culprits] or names_g
             sg = "C38:deadlock:%s" % "+".join(bad)
             if sg in seen_sig:
@@ -213,12 +222,14 @@ def run(ctx):
     ctx.cov["exhaustive"] = not q or len(pairs) <= 900
     ctx.cov["rule"] = ("acquisition programs recorded from the real code by running each of %d task kinds (every service of the message "
                        "handler, the subscription timer body, session creation, transport teardown) on two connections of one real "
-                       "server; %d distinct programs; every pair (thorough: plus sampled triples) composed by TLC under task-fair RwLock "
-                       "semantics; non-trivial = a group of two different programs" % (len(names) // 2, len(reps)))
+                       "server, plus %d variant requests of Services.tla (the likely-to-succeed set and a seeded sample of the adversarial "
+                       "universe: error paths and other branches of the same services) on connection 1; %d distinct programs; every pair "
+                       "(thorough: plus sampled triples) composed by TLC under task-fair RwLock semantics; non-trivial = a group of two "
+                       "different programs" % (len([n for n in names if "~" not in n]) // 2, len(variants), len(reps)))
     ctx.notes["direct_lock_calls_not_seen_by_the_hook"] = direct_lock_calls()
     ctx.sample({"program": reps[0], "instructions": progs[reps[0]]})
     ctx.sample({"program": "Call_GetMonitoredItems@1", "instructions": progs.get("Call_GetMonitoredItems@1")})
     ctx.assumptions += ["parking_lot task-fair RwLock policy as modelled in Locks.tla",
                         "only acquisitions made through trace_lock!/trace_read_lock!/trace_write_lock! are recorded; direct .read()/.write()/.lock() "
                         "calls are inventoried in the evidence, not composed",
-                        "one program per task kind from one execution each (data-dependent branches that take other locks are not explored)"]
+                        "one program per task kind and per variant request from one execution each (branches that none of the requests reaches are not explored)"]
